@@ -765,6 +765,28 @@ def build():
 
     add("mbxml_var", mbxml_var, 3)
 
+    # the numeric writers one at a time (a signature is ONE entry point, so that what another writer leaves behind - a rounding
+    # mode, a precision, an error state of a numeric library - can show), on the values where a rounding rule decides: coordinates
+    # whose seventh decimal is an exact binary half (odd multiples of 1/128 degree), fractions at the half of a septet step
+    TIES = [0.0078125, 24.0078125, 89.9921875, 0.0234375, 124.6640625, 179.9921875, 51.5, 14.4375, 0.0000005, 45.1234565]
+
+    def mbxml_lat(r):
+        from okdmr.dmrlib.motorola.mbxml import MBXML
+        return [MBXML.write_latitude(v if v < 90 else v / 2) for v in r.sample(TIES, 4)] + [MBXML.write_latitude(90.0)], []
+
+    def mbxml_lon(r):
+        from okdmr.dmrlib.motorola.mbxml import MBXML
+        return [MBXML.write_longitude(v) for v in r.sample(TIES, 4)], []
+
+    def mbxml_float(r):
+        from okdmr.dmrlib.motorola.mbxml import MBXML
+        v = r.choice([0.5, 1 / 256, 3 / 256, 7.00390625, 2.5, 63.99609375])
+        return (MBXML.write_ufloatvar(v, 1), MBXML.write_sfloatvar(-v, 1), MBXML.write_ufloatvar(v, 2)), []
+
+    add("mbxml_lat", mbxml_lat, 3)
+    add("mbxml_lon", mbxml_lon, 3)
+    add("mbxml_float", mbxml_float, 3)
+
     def lrrp_token(r):
         from okdmr.dmrlib.motorola.lrrp import LRRP
         from okdmr.dmrlib.motorola.mbxml import MBXML, MBXMLDocumentIdentifier
